@@ -48,13 +48,18 @@ POOL = {
     "search_sig": {"api": "search", "s": "on 12 January 2010 and yesterday", "languages": ["en"], "settings": SIG},
     "ddp_sig": {"api": "ddp", "s": "yesterday", "languages": ["en"], "settings": SIG},
     "ddp_fr": {"api": "ddp", "s": N, "languages": ["fr"], "settings": None},
+    # every public entry point that reaches the shared settings must be serialised: get_date_tuple is one of them
+    "tuple_fr": {"api": "tuple", "s": N, "languages": ["fr"], "settings": None},
+    "tuple_sig": {"api": "tuple", "s": N, "languages": ["fr"], "settings": SIG},
+    "tuple_tl": {"api": "tuple", "s": N, "languages": ["tl"], "settings": None},
     "jalali": {"api": "jalali", "s": "01/02/1394", "settings": None},
     "hijri": {"api": "hijri", "s": "01-02-1436", "settings": None},
 }
 PAIRS = [("fr_sig", "en_sig", False), ("fr_def", "tl_def", False), ("en_def", "en_def", False), ("fr_def", "en_def", False),
          ("fr_first", "en_last", False), ("skip_foo", "noskip_foo", False), ("fr_raw", "fr_norm", False),
          ("lim1_en", "lim_fr", True), ("search_en", "rel_en", False), ("search_sig", "ddp_sig", False),
-         ("ddp_fr", "tl_def", False), ("jalali", "fr_def", False), ("hijri", "fr_def", False), ("ddp_fr", "ddp_sig", False)]
+         ("ddp_fr", "tl_def", False), ("jalali", "fr_def", False), ("hijri", "fr_def", False), ("ddp_fr", "ddp_sig", False),
+         ("tuple_fr", "tl_def", False), ("tuple_sig", "en_sig", False), ("tuple_tl", "fr_def", False), ("tuple_fr", "tuple_tl", False)]
 
 
 def explore(ctx, a, b, cold, points, budget, tbudget):
